@@ -908,12 +908,24 @@ class Network:
                 return_when=asyncio.FIRST_COMPLETED
             )
 
+        except asyncio.CancelledError:
+            # Cancelled while the peer had already pierced through: nobody
+            # will take that connection over
+            if expected_connection_future.done() and not expected_connection_future.cancelled():
+                await expected_connection_future.result().disconnect(CloseReason.REQUESTED)
+            raise
+
         finally:
             # Whatever happens here (also when sending failed or this task got
             # cancelled), we can cancel all pending futures
             for fut in futures:
                 if not fut.done():
                     fut.cancel()
+
+        # The peer connected: use that connection, also when the CannotConnect
+        # message or the timeout came in at the same moment
+        if expected_connection_future.done() and not expected_connection_future.cancelled():
+            return expected_connection_future.result()
 
         # `done` will be empty in case of timeout
         if not done:
@@ -1146,9 +1158,10 @@ class Network:
 
         elif isinstance(peer_init_message, PeerPierceFirewall.Request):
             ticket = peer_init_message.ticket
-            try:
-                connection_future = self._expected_connection_futures[ticket]
-            except KeyError:
+            connection_future = self._expected_connection_futures.get(ticket)
+            # A future that is done (cancelled) is only waiting to be removed:
+            # nobody is waiting for this connection anymore
+            if connection_future is None or connection_future.done():
                 logger.warning(
                     "%s:%d : unknown pierce firewall ticket : %d",
                     connection.hostname, connection.port, ticket
